@@ -16,6 +16,7 @@ KPQ == {"p", "q"}
 KPQR == {"p", "q", "r"}
 I1 == {"1"}
 I2 == {"1", "2"}
+IB == {"bulk"}
 S0 == {}
 S1 == {"x"}
 UpA == {"A"}
